@@ -291,10 +291,26 @@ func (a *A) rulePlaceholderPrivate() int {
 			private := true
 			var other string
 			for _, l := range phiLeaves(mu.Map) {
-				if _, ok := l.(*ssa.MakeMap); !ok {
-					private = false
-					other = TermOf(l, nil).String()
+				if _, ok := l.(*ssa.MakeMap); ok {
+					continue
 				}
+				// a module helper all of whose returns are maps it made itself (copyRow-style)
+				if c, ok := l.(*ssa.Call); ok {
+					allFresh, any := true, false
+					a.calleeReturns(c, 0, func(rv ssa.Value, _ *ssa.Function) {
+						any = true
+						for _, rl := range phiLeaves(rv) {
+							if _, ok := rl.(*ssa.MakeMap); !ok {
+								allFresh = false
+							}
+						}
+					}, func(string) { allFresh = false })
+					if any && allFresh {
+						continue
+					}
+				}
+				private = false
+				other = TermOf(l, nil).String()
 			}
 			a.Check(private, construct, mu.Pos(),
 				"placeholder columns are written into a map created in this function",
